@@ -81,6 +81,23 @@ def long_streams(tier):
     return out
 
 
+def big_streams():
+    """Streams whose frames are large compared with the 16 KiB header limit and the 64 KiB receive buffer: (ext, frames, reply kind)."""
+    peer = ref_deflate.Peer()
+    body = bytes((i * 31 + (i >> 7)) & 0xFF for i in range(20000))
+    text = ('héllo wörld € ' * 1500).encode()
+    return {
+        'big-after-reply': (b'', enc([SFrame(BINARY, body), SFrame(PING, b'p'), SFrame(TEXT, b'tail'),
+                                      SFrame(CLOSE, ref_ws.close_payload(1000, b'bye'))]), 'ok'),
+        'big-fragments': (b'', enc([SFrame(TEXT, text[:9000], fin=0), SFrame(PING, b''), SFrame(CONT, text[9000:17001], fin=0),
+                                    SFrame(CONT, text[17001:]), SFrame(BINARY, b'\x00')]), 'ok'),
+        'big-deflate': (DEFLATE, enc([SFrame(TEXT, peer.compress(text), rsv=4), SFrame(BINARY, peer.compress(body), rsv=4),
+                                      SFrame(TEXT, b'plain')]), 'ok'),
+        'big-70k': (b'', enc([SFrame(BINARY, body * 3 + body[:10000]), SFrame(TEXT, b'after')]), 'ok'),
+        'big-404-body': (b'', b'x' * 20000, '404'),
+    }
+
+
 def observe(world, upto_events=None):
     evs = []
     for e in world.events:
@@ -152,13 +169,14 @@ class C02(F.Check):
     technique = ('(a) brute force over all 2^(n-1) cut sets of every short stream of a family (valid, invalid, compressed); '
                  '(b) for long streams incl. the HTTP reply: state-equality induction -- for every i<j the execution "one read of [0,i), then one read '
                  'of [i,j)" must reach the same canonical state, events and client bytes as "one read of [0,j)", which covers all 2^(n-1) '
-                 'segmentations by induction on the number of cuts')
+                 'segmentations by induction on the number of cuts; (c) streams with 20-70 KB frames directly behind the reply: every single cut and '
+                 'every pair of cuts over the boundary positions (end of reply +-k, 16 KiB +-1, 64 KiB +-1, ...) against one read')
     assumptions = [
         'canonical-state equality (lv.canon full-state walk) implies equal futures; part (a) is the abstraction-free cross-check of that',
         'clock frozen: nothing time-driven differs between segmentations (timers are C15)',
         'observation = non-Poll events with payloads/reasons + client frames after unmasking; EOF follows the last byte',
     ]
-    expect_sites = ('brute', 'induction', 'deflate', 'invalid', 'reply-cut')
+    expect_sites = ('brute', 'induction', 'deflate', 'invalid', 'reply-cut', 'big')
 
     def rule(self, tier):
         return ('(a) %d streams of <= %d bytes after the handshake, all cut sets each; (b) %d streams of 150-500 bytes incl. the reply, all pairs i<j. '
@@ -182,6 +200,8 @@ class C02(F.Check):
         for name in sorted(long_streams(tier)):
             for part in range(8):
                 jobs.append({'k': 'ind', 'stream': name, 'part': part, 'parts': 8, 'tier': tier})
+        for name in sorted(big_streams()):
+            jobs.append({'k': 'big', 'stream': name})
         return jobs
 
     # ------------------------------------------------------------------ (a)
@@ -225,6 +245,8 @@ class C02(F.Check):
             if job['part'] == 0:
                 res.samples.append({'stream': name, 'hex': data.hex(), 'observation': _short(base)})
             return res
+        if job['k'] == 'big':
+            return self.run_big(job, res)
         # ---- (b) induction
         name = job['stream']
         ext, frames, kind = long_streams(job['tier'])[name]
@@ -268,6 +290,47 @@ class C02(F.Check):
                             {'k': 'bytewise', 'stream': name, 'tier': job['tier']})
         return res
 
+    def big_stream(self, name):
+        ext, frames, kind = big_streams()[name]
+        run, _ = run_chunks([], bool(ext), then_eof=True)
+        request = ref_ws.split_http_request(run.world.wire())[0]
+        reply = reply_for(kind, request, ext)
+        return ext, reply, reply + frames
+
+    def big_positions(self, r, n):
+        cand = [1, r - 4, r - 1, r, r + 1, r + 2, r + 3, r + 4, r + 10, r + 14, 16383, 16384, 16385, 16386, r + 16384, r + 16385,
+                n // 2, 32768, 65535, 65536, 65537, r + 65536, n - 5, n - 1]
+        return sorted(set(c for c in cand if 0 < c < n))
+
+    def big_case(self, name, cuts):
+        ext, reply, stream = self.big_stream(name)
+        bounds = [0] + list(cuts) + [len(stream)]
+        chunks = [stream[a:b] for a, b in zip(bounds, bounds[1:])]
+        run, _ = run_chunks(chunks, bool(ext), then_eof=True, max_waits=len(chunks) + 24)
+        return observe(run.world)
+
+    def run_big(self, job, res):
+        """(c) large frames directly behind the reply: every single cut and every pair of cuts over a set of boundary positions."""
+        name = job['stream']
+        ext, reply, stream = self.big_stream(name)
+        P = self.big_positions(len(reply), len(stream))
+        base = self.big_case(name, [])
+        res.executions += 1
+        res.covered.add('big')
+        res.outcomes[repr((name, _short(base)))[:300]] += 1
+        cutsets = [[a] for a in P] + [[a, b] for i, a in enumerate(P) for b in P[i + 1:]]
+        for cuts in cutsets:
+            obs = self.big_case(name, cuts)
+            res.executions += 1
+            res.n_transitions += len(cuts) + 1
+            res.states.add(F.hs((name, tuple(cuts))))
+            if obs != base:
+                d = 'events' if obs[0] != base[0] else 'client-bytes'
+                res.violate('C02:big:%s' % d, 'stream %s (%d bytes, reply %d) cut at %r: %s, one read: %s'
+                            % (name, len(stream), len(reply), cuts, _short(obs), _short(base)), {'k': 'big', 'stream': name, 'cuts': cuts})
+        res.samples.append({'stream': name, 'bytes': len(stream), 'positions': P, 'observation': _short(base)})
+        return res
+
     _streams = {}
 
     def full_stream(self, name, tier):
@@ -289,6 +352,15 @@ class C02(F.Check):
 
     def replay(self, case, verbose=True):
         out = []
+        if case['k'] == 'big':
+            base, obs = self.big_case(case['stream'], []), self.big_case(case['stream'], case['cuts'])
+            if verbose:
+                print('stream', case['stream'], 'cuts', case['cuts'])
+                print('one read :', _short(base))
+                print('with cuts:', _short(obs))
+            if obs != base:
+                out.append(F.Violation('C02:big:%s' % ('events' if obs[0] != base[0] else 'client-bytes'), 'differs', case))
+            return out
         if case['k'] == 'brute':
             run0, base = self.brute_case(case['stream'], [], case['limit'])
             run, obs = self.brute_case(case['stream'], case['cuts'], case['limit'])
